@@ -66,6 +66,10 @@ class World:
         self.obj = {}                # name -> Python object
         self.fresh = set()           # names created in the current transaction (not yet committed)
         self.sps = []                # [(savepoint, work snapshot, fresh snapshot)]
+        self.ever = set()            # names that were committed at some time (they stay stored objects)
+        self.dirty = set()           # existing objects modified in the current transaction
+        self.explicit = set()        # fresh objects that were added explicitly (stored even if unreachable)
+        self.last_stored = set()     # names whose records the last commit must have written
         self.n = 0
         self.counter = 100
 
@@ -83,6 +87,8 @@ class World:
         name = names[i % len(names)]
         self.root[name].v = self.counter
         self.work[name] = self.counter
+        if name not in self.fresh:
+            self.dirty.add(name)
         return 'M:' + name
 
     def add(self, explicit=False):
@@ -92,6 +98,7 @@ class World:
         ob = pobj.PObj(v=self.counter)
         if explicit:
             self.c.add(ob)
+            self.explicit.add(name)
         self.root[name] = ob
         self.obj[name] = ob
         self.work[name] = self.counter
@@ -109,24 +116,33 @@ class World:
 
     def savepoint(self):
         sp = self.tm.savepoint()
-        self.sps.append((sp, dict(self.work), set(self.fresh), getattr(self, 'work_scalar', None)))
+        self.sps.append((sp, dict(self.work), set(self.fresh), getattr(self, 'work_scalar', None), set(self.dirty), set(self.explicit)))
         return 'S%d' % (len(self.sps) - 1)
 
     def rollback(self, k):
         if not self.sps:
             return None
         k = k % len(self.sps)
-        sp, snap, fresh, scalar = self.sps[k]
+        sp, snap, fresh, scalar, dirty, explicit = self.sps[k]
         sp.rollback()
         del self.sps[k + 1:]          # later savepoints are invalidated by the transaction API
         self.work = dict(snap)
         self.fresh = set(fresh)
+        self.dirty = set(dirty)
+        self.explicit = set(explicit)
         self.work_scalar = scalar
         return 'R%d' % k
 
     def commit(self):
         self.tm.commit()
+        # stored: modified existing objects (reachable or not), new objects that are reachable, and new
+        # objects that were added explicitly
+        self.last_stored = set(self.dirty) | set(n for n in self.fresh if n in self.work or n in self.explicit)
+        self.ever.update(self.last_stored)
+        self.dirty = set()
+        self.explicit = set()
         self.committed = dict(self.work)
+        self.ever.update(self.work)
         self.committed_scalar = getattr(self, 'work_scalar', None)
         self.fresh = set()
         self.sps = []
@@ -137,6 +153,8 @@ class World:
         self.work = dict(self.committed)
         self.work_scalar = getattr(self, 'committed_scalar', None)
         self.fresh = set()
+        self.dirty = set()
+        self.explicit = set()
         self.sps = []
         return 'X'
 
@@ -153,6 +171,8 @@ class World:
         self.work = dict(self.committed)
         self.work_scalar = getattr(self, 'committed_scalar', None)
         self.fresh = set()
+        self.dirty = set()
+        self.explicit = set()
         self.sps = []
         return 'F:%s%s' % (phase, '<' if first else '>')
 
@@ -170,7 +190,7 @@ class World:
             check('scalar' not in root, 'root attribute that was rolled back / aborted is still there (%s)' % where)
         # objects that were new and whose creation was rolled back / aborted belong to no database any more
         for name, ob in self.obj.items():
-            alive = name in self.work or name in self.committed
+            alive = name in self.work or name in self.committed or name in self.ever
             if not alive and name not in self.fresh:
                 check(ob._p_jar is None and ob._p_oid is None,
                       'object whose creation was undone still belongs to the connection (%s)' % where, name, ob._p_oid)
